@@ -51,7 +51,7 @@ def cloud_cases(draw):
     shapes.append([count, 1])
     if count == 1:
         shapes.append([])
-    return dict(region=region, e=es, n=ns, shape=draw(st.sampled_from(shapes)), order=draw(st.sampled_from(build.ORDERS)), order2=draw(st.sampled_from(build.ORDERS)),
+    return dict(region=region, e=es, n=ns, shape=draw(st.sampled_from(shapes)), order=draw(st.sampled_from(build.ORDERS)), order2=draw(st.sampled_from(build.ORDERS)), container=draw(st.sampled_from(build.CONTAINERS)),
                 extra=draw(st.booleans()))
 
 
@@ -62,15 +62,16 @@ def check_cloud(case, ctx):
     region = case["region"]
     w, ee, s, nn = region
     # get_region: tight bounding box
-    got = vd.get_region(coords)
+    pcoords = tuple(build.present(c, case.get("container")) for c in coords)
+    got = vd.get_region(pcoords)
     ctx.check(len(got) == 4, "get_region must return 4 values")
     exp = (min(case["e"]), max(case["e"]), min(case["n"]), max(case["n"]))
     ctx.check(tuple(float(v) for v in got) == exp, "get_region %r is not the tight bounding box %r", got, exp)
     # every point is inside its own bounding region
-    own = vd.inside(coords, got)
+    own = vd.inside(pcoords, got)
     ctx.check(np.asarray(own).shape == e.shape and np.all(own), "some points are outside their own bounding region")
     # closed box predicate, element-wise, same shape, bool dtype
-    res = vd.inside(coords, region)
+    res = vd.inside(pcoords, region)
     res = np.asarray(res)
     ctx.check(res.shape == e.shape, "inside returned shape %s for input shape %s", res.shape, e.shape)
     ctx.check(res.dtype == bool, "inside returned dtype %s", res.dtype)
